@@ -55,6 +55,8 @@ type Fact struct {
 	K      int64
 	KS     string
 	SelArr []int64
+	Grid   [][]int64                   // two selector levels
+	Book   map[string]map[string]int64 // two selector levels
 
 	h *Hidden
 }
@@ -72,6 +74,10 @@ func (f *Fact) H() *Hidden {
 
 func (f *Fact) Add(a, b int64) int64 { return a + b }
 func (f *Fact) IsPos(a int64) bool   { return a > 0 }
+
+// GetI is a getter without arguments: its result changes when I changes, and only a Forget/Changed naming
+// the CALL (or an assignment to the receiver) invalidates it.
+func (f *Fact) GetI() int64 { return f.I }
 func (f *Fact) Cat(ss ...string) string {
 	return strings.Join(ss, "")
 }
@@ -177,6 +183,21 @@ func (f *Fact) Clone() *Fact {
 	if f.SelArr != nil {
 		c.SelArr = append([]int64{}, f.SelArr...)
 	}
+	if f.Grid != nil {
+		c.Grid = make([][]int64, len(f.Grid))
+		for i, r := range f.Grid {
+			c.Grid[i] = append([]int64{}, r...)
+		}
+	}
+	if f.Book != nil {
+		c.Book = map[string]map[string]int64{}
+		for k, m := range f.Book {
+			c.Book[k] = map[string]int64{}
+			for k2, v := range m {
+				c.Book[k][k2] = v
+			}
+		}
+	}
 	if f.SArr != nil {
 		c.SArr = append([]string{}, f.SArr...)
 	}
@@ -243,6 +264,12 @@ func (f *Fact) Dump() string {
 	}
 	if f.SelArr != nil {
 		fmt.Fprintf(&b, " SelArr:%v", f.SelArr)
+	}
+	if f.Grid != nil {
+		fmt.Fprintf(&b, " Grid:%v", f.Grid)
+	}
+	if f.Book != nil {
+		fmt.Fprintf(&b, " Book:%v", f.Book) // fmt prints maps with sorted keys
 	}
 	if f.SArr == nil {
 		b.WriteString(" SArr:nil")
